@@ -130,7 +130,11 @@ Retype(S, t) == IF IsInt(S[t].dt) THEN Put(S, t, S[t].n, S[t].u, FloatOfInplace(
 (* ---------------- calls ---------------- *)
 \* c = [op, f, x, y, o, u, e] (all strings, "" when unused)
 Call(op, f, x, y, o, u, e) == [op |-> op, f |-> f, x |-> x, y |-> y, o |-> o, u |-> u, e |-> e]
-CopyOps == {"in_units", "to", "to_value", "in_base", "in_cgs", "in_mks", "to_equivalent", "binop", "ufunc", "unary", "copy",
+\* generic copying families (frame-only: T does not transcribe their results, P1_NoMut is evaluated on every live object):
+\*   gufunc  f = any binary ufunc, e = form: "call" np.f(x, y) | "op" the Python operator | "reduce" | "accumulate" | "outer"
+\*   gunary  f = unary ufunc np.f(x)        garrfn f = array function of (x, y)        gmethod f = ndarray method / reduction of x
+GOps == {"gufunc", "gunary", "garrfn", "gmethod"}
+CopyOps == GOps \cup {"in_units", "to", "to_value", "in_base", "in_cgs", "in_mks", "to_equivalent", "binop", "ufunc", "unary", "copy",
             "concatenate", "dot", "clip", "umul", "udiv", "upow", "ubase", "ucoeff", "ucopy", "usimplify", "units_simplify"}
 InplaceOps == {"convert_to_units", "convert_to_base", "convert_to_cgs", "convert_to_mks", "convert_to_equivalent",
                "iop", "ufunc_out", "unary_out", "setitem0", "setitemall", "copyto", "put", "putmask", "fill_diagonal"}
@@ -349,6 +353,8 @@ Apply(S, c) ==
     \* simplify() returns a new unit of the same value (8c7dbb1); the spelling is not modelled by T
     [] c.op = "usimplify" -> Ok(S, Obj("U", "", S[x].u, <<>>))
     [] c.op = "units_simplify" -> Ok(S, Obj("U", "", S[x].u, <<>>))
+    \* generic copying families: whatever they return or refuse, the state is what it was (the result is not kept)
+    [] c.op \in GOps -> Ok(S, Dead)
     [] OTHER -> Raise(S)
 
 \* a call is offered when its operands exist
@@ -361,6 +367,7 @@ Enabled(S, c) ==
   /\ c.op \in {"copyto", "concatenate", "dot"} => c.y # "two"
   /\ c.op \in {"setitem0", "setitemall", "put", "putmask", "copyto"} => S[c.x].k = "A"
   /\ c.op \in {"concatenate", "dot"} => (S[c.x].k = "A" /\ S[c.y].k = "A")
+  /\ c.op \in GOps => IsArr(S, c.x)
 
 (* ======================= property side (P) ======================= *)
 (* B, Af : projections of every slot before / after the call (R = the object that was R before the call);  *)
